@@ -45,10 +45,10 @@ CodeOf(f) == CASE f = "b" -> 98 [] f = "y" -> 121 [] f = "n" -> 110 [] f = "q" -
                [] f = "x" -> 120 [] f = "t" -> 116 [] f = "l" -> 108 [] f = "f" -> 102 [] f = "d" -> 100 [] f = "s" -> 115
                [] OTHER -> 63
 VaCodes == {98, 121, 110, 113, 105, 117, 120, 116, 108, 102, 100, 115}
-Known   == VaCodes \ {108}            \* 'l' is delivered under a code no consumer knows
+Known   == VaCodes \ {108}            \* value types (a native long, code 'l', is delivered as the 64 bit integer 'x')
 NullFmt == <<0>>
 (* an element as the object sees it: [t, n, c] (c = run-length text) *)
-Item(code, v) == [t |-> code, n |-> IF code = 115 THEN <<>> ELSE v.n, c |-> IF code = 115 THEN RLE(v.c) ELSE <<>>]
+Item(code0, v) == LET code == IF code0 = 108 THEN 120 ELSE code0 IN [t |-> code, n |-> IF code = 115 THEN <<>> ELSE v.n, c |-> IF code = 115 THEN RLE(v.c) ELSE <<>>]
 FlatItem(it) == IF it.t = 115 THEN <<115, Len(it.c)>> \o it.c ELSE <<it.t>> \o it.n
 RECURSIVE Flat(_, _)
 Flat(items, i) == IF i > Len(items) THEN <<>> ELSE FlatItem(items[i]) \o Flat(items, i + 1)
@@ -69,7 +69,7 @@ VaNext(m) ==     \* _iteratorVarargNext: [m, ret]
   IF m.p = 0 THEN [m |-> m, ret |-> -1]
   ELSE IF m.p > Len(m.fmt) THEN [m |-> [m EXCEPT !.p = 0], ret |-> 0]
   ELSE IF m.fmt[m.p] \notin VaCodes THEN [m |-> m, ret |-> -1]
-  ELSE [m |-> [m EXCEPT !.cur = Item(m.fmt[m.p], m.args[m.a]), !.p = m.p + 1, !.a = m.a + 1], ret |-> m.fmt[m.p]]
+  ELSE [m |-> [m EXCEPT !.cur = Item(m.fmt[m.p], m.args[m.a]), !.p = m.p + 1, !.a = m.a + 1], ret |-> Item(m.fmt[m.p], m.args[m.a]).t]
 VaOpen(fmt, args) ==     \* mpt_process_vararg up to the call of the handler: [m, ret]
   LET m0 == [fmt |-> fmt, args |-> args, p |-> 1, a |-> 1, cur |-> NoItem] IN
   IF fmt = NullFmt THEN [m |-> [m0 EXCEPT !.p = 0], ret |-> 0]
@@ -88,8 +88,7 @@ Drain(m, n) == IF n = 0 \/ m.p = 0 THEN <<>>
 
 (* a scripted walk over the iterator: w = sequence of "v" "a" "r"; the log   *)
 (* is what the harness records: 118, item | 97, answer | 114, answer          *)
-\* (an element delivered under the code 'l' has a type the harness -- like every consumer in the library -- cannot read)
-SeenItem(it) == IF it.t = 0 THEN <<0>> ELSE IF it.t = 108 THEN <<-1, 108>> ELSE FlatItem(it)
+SeenItem(it) == IF it.t = 0 THEN <<0>> ELSE FlatItem(it)
 RECURSIVE WalkLog(_, _, _)
 WalkLog(m, w, i) ==
   IF i > Len(w) THEN <<>>
@@ -133,11 +132,11 @@ DenList(slot, ds, t2) ==
   CASE slot = "items" -> IF \A i \in 1..Len(ds) : ds[i].t \in Known THEN Ok(ds) ELSE IF t2 THEN Refused ELSE Silent
     [] slot = "count" -> IF ds = <<>> THEN (IF t2 THEN Refused ELSE Silent)
                          ELSE IF ds[1].t = 105 THEN Ok(ds[1].n)
-                         ELSE IF ds[1].t \in {115, 108} THEN (IF t2 THEN Refused ELSE Silent)
+                         ELSE IF ds[1].t = 115 THEN (IF t2 THEN Refused ELSE Silent)
                          ELSE IF t2 THEN Silent ELSE (IF Int32(ds[1].n) THEN Either(ds[1].n) ELSE Silent)
     [] slot = "ratio" -> IF ds = <<>> THEN (IF t2 THEN Refused ELSE Silent)
                          ELSE IF ds[1].t = 100 THEN Ok(ds[1].n)
-                         ELSE IF ds[1].t \in {115, 108} THEN (IF t2 THEN Refused ELSE Silent)
+                         ELSE IF ds[1].t = 115 THEN (IF t2 THEN Refused ELSE Silent)
                          ELSE IF t2 THEN Silent ELSE Either(ds[1].n)
     [] slot = "label" -> IF ds = <<>> THEN (IF t2 THEN Refused ELSE Silent)
                          ELSE IF ds[1].t = 115 THEN Ok(ds[1].c) ELSE IF t2 THEN Refused ELSE Silent
